@@ -175,7 +175,7 @@ def form_task(t):
 
 
 def run(tier, seed):
-    maxlen = 2 if tier == "quick" else 3
+    maxlen = 3 if tier == "quick" else 4
     tasks = [(i, False, maxlen) for i in range(len(COND_FORMS))] + [(i, True, maxlen) for i in range(len(ACTION_FORMS))]
     res = pool.run_tasks("checks.c19:form_task", tasks)
     n = sum(r["n"] for r in res)
